@@ -4,6 +4,7 @@ CONSTANTS
   MaxWrappers = 4
   MaxDepth = 9
   MaxMarks = 1
+  EnableEmpty = FALSE
 INVARIANT AtMostOnce
 INVARIANT OnlyViaOwner
 INVARIANT OneOwner
